@@ -141,7 +141,7 @@ NoStats == [hasMax |-> FALSE, max |-> <<>>, hasMin |-> FALSE, min |-> <<>>, hasM
 \* Parse the pages of one chunk occupying file offsets [start, start+len) until `want` values
 \* have been seen in data pages AND the byte range is exhausted.
 \* Returns [ok, pages, endOff] ; each page carries sizes, crc verdict, decoded content.
-ChunkPages(bs, start, len, codec, leaf, want) ==
+ChunkPagesX(bs, start, len, codec, leaf, want, decode) ==
     LET endOff == start + len
         RECURSIVE go(_, _, _, _)
         go(off, seen, dict, acc) ==
@@ -160,16 +160,17 @@ ChunkPages(bs, start, len, codec, leaf, want) ==
                                      hasCrc == FieldIs(ph, 4, {"i32"})
                                      crc == IF hasCrc THEN SubSeq(Field(ph, 4).v, 1, 4) ELSE <<>>
                                      crcOk == ~hasCrc \/ AsLE(Crc32(body)) = crc
-                                     un == Decompress(codec, body, ulen)
+                                     un == IF decode THEN Decompress(codec, body, ulen) ELSE [ok |-> TRUE, v |-> <<>>]
                                      base == [hdrLen |-> hdrLen, clen |-> clen, ulen |-> ulen, off |-> off,
                                               hasCrc |-> hasCrc, crcOk |-> crcOk, ptype |-> ptype]
                                  IN IF ~un.ok THEN un
-                                    ELSE IF Len(un.v) # ulen THEN Bad("uncompressed-size-mismatch")
+                                    ELSE IF decode /\ Len(un.v) # ulen THEN Bad("uncompressed-size-mismatch")
                                     ELSE IF ptype = PG_DICT THEN
                                          IF ~FieldIs(ph, 7, {"struct"}) THEN Bad("dict-page-header-missing")
                                          ELSE LET dh == Field(ph, 7)
                                                   n == NatF(dh, 1)
                                                   d == IF n = NoNat THEN Bad("dict-num-values")
+                                                       ELSE IF ~decode THEN [ok |-> TRUE, vals |-> <<>>, p |-> 1]
                                                        ELSE PlainDecode(un.v, 1, Len(un.v) + 1, leaf.type, leaf.tlen, n)
                                               IN IF ~d.ok THEN d
                                                  ELSE go(off + hdrLen + clen, seen, d.vals,
@@ -182,7 +183,8 @@ ChunkPages(bs, start, len, codec, leaf, want) ==
                                                   enc == NatF(dh, 2)
                                               IN IF n = NoNat \/ enc = NoNat \/ NatF(dh, 3) = NoNat \/ NatF(dh, 4) = NoNat
                                                  THEN Bad("data-page-header-required-field")
-                                                 ELSE LET c == DataPageV1(un.v, n, enc, leaf, dict)
+                                                 ELSE LET c == IF decode THEN DataPageV1(un.v, n, enc, leaf, dict)
+                                                               ELSE [ok |-> TRUE, defs |-> <<>>, reps |-> <<>>, vals |-> <<>>, exact |-> TRUE]
                                                       IN IF ~c.ok THEN c
                                                          ELSE go(off + hdrLen + clen, seen + n, dict,
                                                                  Append(acc, base @@ [kind |-> "data", n |-> n, enc |-> enc,
@@ -195,7 +197,7 @@ ChunkPages(bs, start, len, codec, leaf, want) ==
     IN go(start, 0, <<>>, <<>>)
 
 \* ---- chunks, row groups, file ----
-ChunkOf(bs, cc, leaf, dataEnd) ==
+ChunkOfX(bs, cc, leaf, dataEnd, decode) ==
     IF ~IsStruct(cc) \/ ~FieldIs(cc, 3, {"struct"}) THEN Bad("column-chunk-without-metadata")
     ELSE LET md == Field(cc, 3)
              type == NatF(md, 1)
@@ -213,7 +215,7 @@ ChunkOf(bs, cc, leaf, dataEnd) ==
             ELSE IF type # leaf.type THEN Bad("chunk-type-differs-from-schema")
             ELSE LET start == IF dico # NoNat /\ dico > 0 /\ dico < dpo THEN dico ELSE dpo
                  IN IF start < 4 \/ start + tco > dataEnd THEN Bad("chunk-outside-data-region")
-                    ELSE LET pg == ChunkPages(bs, start, tco, codec, leaf, nvals)
+                    ELSE LET pg == ChunkPagesX(bs, start, tco, codec, leaf, nvals, decode)
                          IN IF ~pg.ok THEN pg
                             ELSE [ok |-> TRUE,
                                   c |-> [start |-> start, len |-> tco, type |-> type, codec |-> codec, numValues |-> nvals,
@@ -225,20 +227,20 @@ ChunkOf(bs, cc, leaf, dataEnd) ==
                                          stats |-> IF FieldIs(md, 12, {"struct"}) THEN StatsOf(Field(md, 12)) ELSE NoStats,
                                          pages |-> pg.pages, seen |-> pg.seen]]
 
-RowGroupOf(bs, rg, leaves, dataEnd) ==
+RowGroupOfX(bs, rg, leaves, dataEnd, decode) ==
     IF ~IsStruct(rg) \/ ~FieldIs(rg, 1, {"list"}) \/ NatF(rg, 2) = NoNat \/ NatF(rg, 3) = NoNat
     THEN Bad("row-group-required-field")
     ELSE LET cols == Field(rg, 1).v
          IN IF Len(cols) # Len(leaves) THEN Bad("row-group-column-count")
             ELSE LET RECURSIVE go(_, _)
                      go(i, acc) == IF i > Len(cols) THEN [ok |-> TRUE, cols |-> acc]
-                                   ELSE LET c == ChunkOf(bs, cols[i], leaves[i], dataEnd)
+                                   ELSE LET c == ChunkOfX(bs, cols[i], leaves[i], dataEnd, decode)
                                         IN IF ~c.ok THEN c ELSE go(i + 1, Append(acc, c.c))
                      r == go(1, <<>>)
                  IN IF ~r.ok THEN r
                     ELSE [ok |-> TRUE, rg |-> [numRows |-> NatF(rg, 3), totalByteSize |-> NatF(rg, 2), cols |-> r.cols]]
 
-ParseFile(bs) ==
+ParseFileX(bs, decode) ==
     LET n == Len(bs)
     IN IF n < 12 THEN Bad("too-short")
        ELSE IF SubSeq(bs, 1, 4) # MAGIC THEN Bad("leading-magic")
@@ -264,7 +266,7 @@ ParseFile(bs) ==
                                                         RECURSIVE go(_, _)
                                                         go(i, acc) ==
                                                            IF i > Len(rgl) THEN [ok |-> TRUE, rgs |-> acc]
-                                                           ELSE LET r == RowGroupOf(bs, rgl[i], lv.leaves, fstart)
+                                                           ELSE LET r == RowGroupOfX(bs, rgl[i], lv.leaves, fstart, decode)
                                                                 IN IF ~r.ok THEN r ELSE go(i + 1, Append(acc, r.rg))
                                                         rr == go(1, <<>>)
                                                     IN IF ~rr.ok THEN rr
@@ -272,6 +274,11 @@ ParseFile(bs) ==
                                                              elements |-> es, leaves |-> lv.leaves, rgs |-> rr.rgs,
                                                              footerStart |-> fstart, footerLen |-> flen,
                                                              createdBy |-> BinF(md, 6)]
+
+ParseFile(bs) == ParseFileX(bs, TRUE)
+\* layout only: page headers, sizes, offsets, CRC verdicts; page bodies stay opaque (any codec)
+ParseLayout(bs) == ParseFileX(bs, FALSE)
+ChunkPages(bs, start, len, codec, leaf, want) == ChunkPagesX(bs, start, len, codec, leaf, want, TRUE)
 
 \* ------------------------------------------------------------------ content
 ConcatSeqs(ss) == Flatten(ss)
